@@ -11,20 +11,20 @@ CONSTANTS
   PolicyRoutesInFlows = FALSE
   GetReloads = FALSE
   DoctorFromDisk = FALSE
-  RestoreSkipped = TRUE
+  RestoreSkipped = FALSE
   DevMC = "both"
   RecordHistory = FALSE
   Sampled = FALSE
   MaxHist = 0
-  TagsA = {"v1", "junk"}
-  TagsB = {"none", "v1"}
+  TagsA = {"none", "v1", "junk"}
+  TagsB = {"none", "v1", "lim"}
   TagsC = {"none"}
-  TagsQ = {"none"}
-  TagsG = {"none"}
+  TagsQ = {"none", "q1"}
+  TagsG = {"none", "g1"}
   PayA = {"none", "v2", "bad"}
-  PayB = {"none", "dup"}
-  PayQ = {"none"}
-  PayG = {"none", "gbad"}
+  PayB = {"none", "v2", "dup", "lim"}
+  PayQ = {"none", "q1"}
+  PayG = {"none", "g2", "gbad"}
   WithGate = TRUE
   WithFault = TRUE
   WrongVerbs = FALSE
